@@ -134,7 +134,9 @@ def check(run):
             okb = lf == ({'end_of_request': 1}, -blank) if blank else False
     run.check(okb, 'R12', 'blank-line-length', PR + ': header loop end', pr.loc(), 'the header loop does not stop at end_of_request - %s' % blank, 'stops at end_of_request - 4')
     eor = [v for n in pr.all_nodes() if n['k'] == 'decl' for v in n['vars'] if v.get('name') == 'end_of_request']
-    run.check(bool(eor) and q.linform(pr, eor[0]['init']) == ({'start': 1, 'len': 1}, 0), 'R12', 'end-of-request', PR, pr.loc(), 'end_of_request is not start + len', 'end_of_request == start + len')
+    if not eor:
+        run.broke('parse_request: local end_of_request not found (renamed?)')
+    run.check(not eor or q.linform(pr, eor[0]['init']) == ({pr.params[0]['name']: 1, pr.params[1]['name']: 1}, 0), 'R12', 'end-of-request', PR, pr.loc(), 'end_of_request is not start + len', 'end_of_request == start + len')
 
     run.clause('R5 every search result is compared with nullptr on a real branch before it is dereferenced, subtracted, ordered or passed on; the failing edge throws')
     nuse = 0
